@@ -3,15 +3,21 @@
 package world
 
 import (
+	"bytes"
+	"context"
+	"fmt"
+	"io"
+
+	"github.com/ipfs/go-cid"
 	unixfsnode "github.com/ipfs/go-unixfsnode"
 	dagpb "github.com/ipld/go-codec-dagpb"
 	"github.com/ipld/go-ipld-prime"
 	_ "github.com/ipld/go-ipld-prime/codec/dagcbor" // deployments register more codecs than dag-pb and raw
 	_ "github.com/ipld/go-ipld-prime/codec/raw"
 	"github.com/ipld/go-ipld-prime/datamodel"
+	"github.com/ipld/go-ipld-prime/linking"
 	cidlink "github.com/ipld/go-ipld-prime/linking/cid"
 	"github.com/ipld/go-ipld-prime/node/basicnode"
-	"github.com/ipfs/go-cid"
 
 	"verif/sim/store"
 )
@@ -22,6 +28,10 @@ var _ = dagpb.Type
 type World struct {
 	Store *store.Store
 	LS    ipld.LinkSystem
+	// Ctx is the context passed to Reify by the helpers below; nil is legal
+	// (go-ipld-prime fills in a background context for its own use) and is
+	// what callers that have no context pass.
+	Ctx context.Context
 }
 
 // New builds a world over st. trusted sets LinkSystem.TrustedStorage.
@@ -42,6 +52,34 @@ func ProtoFor(c cid.Cid) datamodel.NodePrototype {
 		return dagpb.Type.PBNode
 	}
 	return basicnode.Prototype.Any
+}
+
+// NewDerived builds the link system the way a server does: the UnixFS
+// reifiers are installed ONCE on a base link system (whose storage here is an
+// un-instrumented bypass straight to the durable map), and every request
+// works on a struct copy of it whose storage callbacks are replaced by the
+// instrumented ones (here: the simulated store with its log and faults). The
+// copy shares the KnownReifiers map with the base. Whatever the library loads
+// must go through the link system it is HANDED, i.e. the copy.
+func NewDerived(st *store.Store, trusted bool) *World {
+	base := cidlink.DefaultLinkSystem()
+	base.TrustedStorage = trusted
+	base.StorageReadOpener = func(_ linking.LinkContext, l datamodel.Link) (io.Reader, error) {
+		cl, ok := l.(cidlink.Link)
+		if !ok {
+			return nil, fmt.Errorf("unsupported link type %T", l)
+		}
+		b, ok := st.Get(cl.Cid)
+		if !ok {
+			return nil, fmt.Errorf("bypass store: block not found")
+		}
+		return bytes.NewReader(b), nil
+	}
+	unixfsnode.AddUnixFSReificationToLinkSystem(&base)
+	derived := base
+	derived.StorageReadOpener = st.ReadOpener
+	derived.StorageWriteOpener = st.WriteOpener
+	return &World{Store: st, LS: derived}
 }
 
 // NewWithNodeReifier is New with LinkSystem.NodeReifier = unixfsnode.Reify:
@@ -66,7 +104,9 @@ func (w *World) Reify(c cid.Cid) (datamodel.Node, error) {
 	if err != nil {
 		return nil, err
 	}
-	return unixfsnode.Reify(ipld.LinkContext{}, n, &w.LS)
+	// a real context, as callers pass one (the zero LinkContext is what the
+	// other entry points of this type use)
+	return unixfsnode.Reify(ipld.LinkContext{Ctx: w.Ctx}, n, &w.LS)
 }
 
 // ReifyPreload loads c and reifies it through the preloading view.
